@@ -108,6 +108,12 @@ type recOp struct {
 	SetNames int `json:"setnames"`
 }
 
+type recUserWrite struct {
+	kind string
+	k    int
+	ver  int
+}
+
 type recInject struct {
 	nth int
 	do  string
@@ -125,11 +131,10 @@ type recState struct {
 	inject  map[string][]recInject
 	ncalls  map[string]int
 	verCtr  int
-	byUser  bool
-	// ukind/uk/uver: the user write being committed (copied into its commit event: the linearization point)
-	ukind string
-	uk    int
-	uver  int
+	// userG: the user writes being committed, by committing goroutine (a commit is attributed at its linearization
+	// point, inside the hook, which runs on the committing goroutine: a flag shared between goroutines would be
+	// read by a reconciler commit that slips in between a user's Commit and the reset of the flag).  Guarded by cmu.
+	userG map[uint64]recUserWrite
 	lastRev statedb.Revision
 	known   map[uint64]*recObj
 	initFn  func(statedb.WriteTxn)
@@ -258,7 +263,10 @@ func (st *recState) onCommit(point string) {
 	st.known = cur
 	st.lastRev = rev
 	by := "rec"
-	if st.byUser {
+	st.cmu.Lock()
+	uw, byUser := st.userG[curGid()]
+	st.cmu.Unlock()
+	if byUser {
 		by = "user"
 	}
 	// the complete table as it reads now: committed objects are immutable, so it is what the commits so far put there
@@ -271,8 +279,8 @@ func (st *recState) onCommit(point string) {
 	st.mu.Lock()
 	ev := Ev{"op": "commit", "by": by, "t": st.now(), "rev": int(rev), "changes": changes, "init": init, "all": all,
 		"ukind": "", "uk": 0, "uver": 0}
-	if st.byUser {
-		ev["ukind"], ev["uk"], ev["uver"] = st.ukind, st.uk, st.uver
+	if byUser {
+		ev["ukind"], ev["uk"], ev["uver"] = uw.kind, uw.k, uw.ver
 	}
 	st.log.Emit(ev)
 	st.mu.Unlock()
@@ -324,9 +332,14 @@ func (st *recState) userWrite(kind string, k int) {
 	}
 	rev := st.table.Revision(wtxn)
 	st.emit(Ev{"op": "user", "kind": kind, "k": k, "ver": ver, "found": found, "rev": int(rev), "t": st.now()})
-	st.byUser, st.ukind, st.uk, st.uver = true, kind, k, ver
+	gid := curGid()
+	st.cmu.Lock()
+	st.userG[gid] = recUserWrite{kind, k, ver}
+	st.cmu.Unlock()
 	wtxn.Commit()
-	st.byUser = false
+	st.cmu.Lock()
+	delete(st.userG, gid)
+	st.cmu.Unlock()
 }
 
 func (st *recState) outcome(on string, k uint64) (fail bool, inj *recInject) {
@@ -434,7 +447,8 @@ func runRecScript(t *testing.T, sc Script, log *Log) {
 			panic(err)
 		}
 		st := &recState{log: log, start: time.Now(), target: map[uint64]int{}, failQ: map[string]int{},
-			inject: map[string][]recInject{}, ncalls: map[string]int{}, known: map[uint64]*recObj{}, useSet: cfg.UseSet, setNames: cfg.SetNames}
+			inject: map[string][]recInject{}, ncalls: map[string]int{}, known: map[uint64]*recObj{}, useSet: cfg.UseSet, setNames: cfg.SetNames,
+			userG: map[uint64]recUserWrite{}}
 		ops := &recOps{st}
 		var batchOps reconciler.BatchOperations[*recObj]
 		if cfg.Batch {
@@ -540,9 +554,13 @@ func runRecScript(t *testing.T, sc Script, log *Log) {
 			case "initdone":
 				wtxn := st.db.WriteTxn(st.table)
 				st.initFn(wtxn)
-				st.byUser = true
+				st.cmu.Lock()
+				st.userG[curGid()] = recUserWrite{"initdone", 0, 0}
+				st.cmu.Unlock()
 				wtxn.Commit()
-				st.byUser = false
+				st.cmu.Lock()
+				delete(st.userG, curGid())
+				st.cmu.Unlock()
 				st.emit(Ev{"op": "initdone", "t": st.now()})
 			case "prune":
 				st.r.Prune()
